@@ -25,7 +25,12 @@ RULE = ("port trees: 1..24 names per table over {a b c} + digits (lengths 1..3, 
         "perfect hash when the library finds one), sub-trees 'name/' and 'name#N/' nested up to 4 levels, "
         "default handler on about a quarter of the tables (hashed and unhashed ones; it must run exactly when no port of a reached table takes the message, with and without location buffer); in about 6 % of the tables names with bytes 0x7f / 0x80 / 0xe9 / 0xff; in about a third of the tables names of several address "
         "components, with and without '#N', as leaves and as sub-trees at every depth (a#2/b#3/, a#2/k#2:i, x/y/, u/v/w/; "
-        "a '#'-free table holding one takes the linear scan too); "
+        "a '#'-free table holding one takes the linear scan too); in about 30 % of the tables half of the names carry alternative "
+        "groups {a,b,..} (2..3 non-empty alternatives of letters, none a prefix of another: C05's side conditions alts_prefix_free / "
+        "enum_delimited) at the start, in the middle, at the end of a component or as a whole component, before or after a '#N', in "
+        "one-component and multi-component names, as leaves and as sub-trees ({on,off}/, {ab,cd}x::i, p{q,r}#2:i, a#2{x,y}/, a#2/{x,y}b/; "
+        "also in otherwise literal tables - the kind the pinned code hashed); their addresses spell one of the alternatives (86 %), the "
+        "group's own text, a shortened / extended alternative, or two alternatives; "
         "addresses derived from a randomly chosen port path: exact, one character appended / removed / changed, "
         "index N-1 / N / N+1 / leading zeros / 10..20 digits (a valid index zero-padded, valid index + j*2^32, + j*2^64, 2^31 / 2^32 / 2^63 / 2^64 boundaries; 22 % of the enumerated components), '/' dropped or doubled, leading '/' dropped, a byte 0x7f / 0x80 / 0xe9 / 0xff changed in / inserted / appended / as a whole component (8 %), plus random short "
         "addresses; type strings equal to an alternative, a proper extension of one (the text leaves that verdict open: the two runs must then agree), with the first tag changed, with the last tag dropped, or unrelated. "
@@ -38,11 +43,15 @@ TRUSTED = ["harness/h_C04.cpp: Ports subclass filling the public `ports` vector 
            "library's own rRecurCb / rRecursCb (port-sugar.h) behind the recording wrapper, a proxy `ports` object forwards "
            "their dispatch call to the run-time built sub-table and translates the pointer they computed back to the "
            "harness's object numbering; hooks Ports::verif_tables (add-only, RTOSC_VERIF)",
-           "tools/props/C04.py: the Python Spec oracle (C05's pattern oracle applied level by level)",
+           "tools/props/C04.py: the Python Spec oracle (C05's pattern oracle - literal text, #N, alternatives - applied level by level)",
            "the perfect-hash search (find_pos, find_assoc) is not modelled: its output is an input of the model; "
            "what is modelled and proved is everything the library does with it"]
-ASSUMPTIONS = ["port names of the documented form literal text / #N / trailing '/' / ':types' (any bytes but NUL and ':' in "
-               "names and addresses - no 7-bit restriction since fix 7baa3a8); where the type string is a proper extension of an "
+ASSUMPTIONS = ["port names of the documented form literal text / #N / {a,b,..} / trailing '/' / ':types' (any bytes but NUL and ':' in "
+               "names and addresses - no 7-bit restriction since fix 7baa3a8); alternative groups inside C05's side conditions (no alternative a "
+               "prefix of another, none empty or starting with a digit behind '#N' - outside them C05 has known findings) and without '/'; "
+               "an enumerated SUB-TREE name has no alternative group in front of its first '#' (p{q,r}#2/ is generated as a leaf only: "
+               "rBOILS_BEGIN looks for the index as many characters into the message as the name has in front of its '#' - proposed finding "
+               "index-behind-alternatives, notes/C04.md); where the type string is a proper extension of an "
                "alternative the text gives no verdict on that port (counted in dist as no-verdict:...): the oracle then only "
                "requires both runs and all tables to agree; location buffer large enough (ports.cpp: 'buffer_size is not properly handled yet'); "
                "callbacks of sub-tree ports follow the recursion contract SNIP + dispatch of rRecur*Cb"]
@@ -330,6 +339,18 @@ def spec_check(case, impl):
     return None
 
 def classify(case, impl, failure):
+    """index-behind-alternatives: an enumerated SUB-TREE port whose name has an alternative group in
+    front of its first '#' ("p{q,r}#2/"): rBOILS_BEGIN (port-sugar.h) looks for the index as many
+    characters into the message as the NAME has in front of its '#', so the child object is taken
+    from the wrong place.  The generator does not make such names (ASSUMPTIONS); a hand-written or
+    corpus case that does is classified here."""
+    try:
+        t = parse_tree(case.split(" ")[1])
+    except Exception:
+        return None
+    if failure and failure.split(":")[0] in ("spurious-callback", "missing-callback") and any(
+            sub is not None and alt_before_hash(name) for tb in walk(t) for name, sub in tb.ports):
+        return "index-behind-alternatives"
     return None
 
 def nontrivial(case, impl):
@@ -741,8 +762,12 @@ LEVEL_TEXT = ("Proved per table of Ports::dispatch, for ANY callbacks, any numbe
               "documented form with ANY number of address components (a#2/b#3/, x/y/, a#2/k#2:i) every callback's loc is a "
               "prefix of the full address and a leaf's loc is the full address (C04_loc_full_address), the table below a "
               "sub-tree port receives exactly what follows the matched name (C04_snip_strips_matched_name), the index handed "
-              "down is the one spelled at the '#' (C04_index_at_hash).")
+              "down is the one spelled at the '#' (C04_index_at_hash). Names with alternatives {a,b,..}: the model's matcher is C05's "
+              "match_path, so every tree theorem covers them; C04_loc_full_address and C04_snip_strips_matched_name hold for alternatives "
+              "without '/' and ':' (alts_plain); the pinned code hashed { {ab,cd}x, ef, gh } and put the name's text into loc "
+              "(C04_alternatives_refuted, two fix: commits, C04_alternatives_repaired; example C04_alternatives_nonvacuous: "
+              "{on,off}/ and p{q,r}#2:i).")
 LEVEL_NOTE = ("Trusted: Coq kernel, extraction, OCaml driver, harness (run-time built Ports, re-dispatching callbacks), the hook "
               "Ports::verif_tables, generators, the Python Spec oracle. The perfect-hash search is not modelled: its output "
               "is an input. Strategy independence is stated for literal single-component names (what the library hashes); "
-              "tables with '#' names take the linear scan in both runs.")
+              "tables with '#' or '{' names take the linear scan in both runs. C04_index_at_hash is stated for a literal prefix in front of the '#'.")
